@@ -379,6 +379,61 @@ def main(argv):
                     failures.append({"kind": "mismatch", "stream": name, "signature": m[:400], "detail": m,
                                      "ops": r["ops"], "stateful": s.get("stateful", False),
                                      "seq_start": s.get("seq_start"), "seed": sd})
+    # 5a. a disagreement must reproduce when its operation sequence is re-executed; one that does not is a
+    #     scheduling artefact of the harness (recorded in the evidence, not an alarm)
+    kept = []
+    flaky = []
+    checked_seq = {}
+    for f in failures:
+        if f["kind"] != "mismatch" or not f.get("ops") or not os.path.exists(f["ops"]):
+            kept.append(f)
+            continue
+        m = re.search(r"line=(\d+) ", f["detail"])
+        if not m:
+            kept.append(f)
+            continue
+        ln = int(m.group(1))
+        alllines = [l.rstrip("\n").split(" | ")[0] for l in open(f["ops"])]
+        start = 0
+        ss = f.get("seq_start")
+        if f.get("stateful") and ss:
+            ss = tuple(ss) if not isinstance(ss, str) else ss
+            for i in range(ln - 1, -1, -1):
+                if alllines[i].startswith(ss):
+                    start = i
+                    break
+        elif not f.get("stateful"):
+            start = ln - 1
+        key = (f["ops"], start)
+        if key not in checked_seq:
+            # re-run the whole sequence containing the line (to its end or the next sequence start)
+            end = ln
+            if f.get("stateful") and ss:
+                for i in range(ln, len(alllines)):
+                    if alllines[i].startswith(ss):
+                        break
+                    end = i + 1
+            bad = set()
+            for attempt in range(2):
+                res, mism, _ = replay_ops(f["stream"], alllines[start:end], tag + ".re")
+                if res is None:
+                    bad = None
+                    break
+                for mm in mism:
+                    m2 = re.search(r"line=(\d+) ", mm)
+                    if m2:
+                        bad.add(start + int(m2.group(1)))
+                if bad:
+                    break
+            checked_seq[key] = bad
+        bad = checked_seq[key]
+        if bad is None or bad:
+            kept.append(f)
+        else:
+            flaky.append(f["signature"][:200])
+    failures = kept
+    if flaky:
+        notes["unreproduced_disagreements"] = flaky[:10]
     # 5b. property oracles on the implementation alone (always run on a directed sample; they are also what
     #     detects recorded known findings on every run)
     oracle_stats = []
@@ -463,7 +518,7 @@ def search(prop, cfg, failures, seed, tier, tag, known, known_hits):
                         st0 = 0
                         if f.get("seq_start"):
                             for i in range(len(ls) - 1, -1, -1):
-                                if ls[i].startswith(f["seq_start"]):
+                                if ls[i].startswith(tuple(f["seq_start"]) if not isinstance(f["seq_start"], str) else f["seq_start"]):
                                     st0 = i
                                     break
                         for l in ls[st0:]:
@@ -513,7 +568,7 @@ def search(prop, cfg, failures, seed, tier, tag, known, known_hits):
                     ss = f.get("seq_start")
                     if ss:
                         for i in range(ln - 1, -1, -1):
-                            if alllines[i].startswith(ss):
+                            if alllines[i].startswith(ss if isinstance(ss, (tuple, str)) else tuple(ss)):
                                 start = i
                                 break
                     rec["ops"] = ddmin_prefix(f["stream"], alllines[start:ln], ln - 1 - start, tag, keep_first=bool(ss))
